@@ -177,6 +177,8 @@ impl Case {
             "const-fails-run-returns"
         } else if why.contains("run variants differ") {
             "run-variants-differ"
+        } else if why.contains("does not compile / the compiler crashed") {
+            "compile-crash-or-reject"
         } else if why.contains("!= run-time value") {
             "value-mismatch"
         } else {
@@ -1368,6 +1370,130 @@ fn gen_aggr(rng: &mut Rng, thorough: bool, out: &mut Vec<Case>) {
     }
 }
 
+
+// ---------------------------------------------------------------------------------------------
+// leg lfn: the libfunc-specific rules of the const folder (ConstFoldingLibfuncInfo) that compare
+// against a numeric bound not covered by the arithmetic / cast legs:
+//   storage_base_address_from_felt252 (wraps at ADDR_BOUND = 2^251 - 256),
+//   contract_address / class_hash try_from_felt252 and to_felt252 (downcast_fns / upcast_fns, range
+//   [0, 2^251 - 1]; also const-evaluable), array_new/append/len/get/pop_front with known contents
+//   (index against the known length), panic_with_felt252 -> panic_with_const_felt252,
+//   panic_with_byte_array (31-byte word boundary), into_box / unbox of constants.
+// f_lit() has the literal in the body, f_args(x) receives it at run time; folding on / off.
+// ---------------------------------------------------------------------------------------------
+fn lfn_values(bounds: &[BigInt]) -> Vec<BigInt> {
+    let p = vcommon::stark_prime();
+    let mut s: BTreeSet<BigInt> = BTreeSet::new();
+    for v in [BigInt::zero(), BigInt::one(), BigInt::from(-1), &p - 1, BigInt::from(2), BigInt::one() - &p] {
+        s.insert(v);
+    }
+    for b in bounds {
+        for d in -1..=1 {
+            s.insert(b + d);
+            s.insert(b + d - &p); // the same field elements written as negative literals
+            s.insert(b * 2 + d);
+        }
+    }
+    s.into_iter().filter(|v| *v > -&p && *v < p).collect()
+}
+
+fn lfn_case(name: &str, rty: &str, shape: Shape, pty: Ty, e: &dyn Fn(&str) -> String, x: &BigInt, with_const: bool, expect: Option<Option<Vec<BigInt>>>) -> Case {
+    let l = pty.lit(x);
+    let pn = pty.name();
+    Case {
+        leg: "lfn",
+        coq: false,
+        coq_head: format!("lfn {name} {}", x),
+        nontrivial: true,
+        rty: rty.into(),
+        shape,
+        const_expr: if with_const { Some(e(&l)) } else { None },
+        constfn: if with_const {
+            Some((format!("cf_lfn_{name}"), format!("const fn cf_lfn_{name}(x: {pn}) -> {rty} {{ {} }}", e("x")), format!("cf_lfn_{name}({l})")))
+        } else {
+            None
+        },
+        twin: Some((format!("f_lfn_{name}"), format!("fn f_lfn_{name}(x: {pn}) -> {rty} {{ {} }}", e("x")))),
+        args: pty.cells(x),
+        g: Some((String::new(), e(&l), vec![])),
+        items: vec![],
+        fns: vec![],
+        feature: true,
+        expect,
+        unsupported_ok: false,
+        tag: format!("lfn:{name}"),
+        class: "lfn",
+    }
+}
+
+fn gen_lfn(rng: &mut Rng, thorough: bool, out: &mut Vec<Case>) {
+    let p = vcommon::stark_prime();
+    let two251: BigInt = BigInt::one() << 251u32;
+    let addr_bound: BigInt = &two251 - 256;
+    let two128: BigInt = BigInt::one() << 128u32;
+    let norm = |x: &BigInt| ((x % &p) + &p) % &p;
+    let mut vals = lfn_values(&[addr_bound.clone(), two251.clone(), two128.clone()]);
+    for _ in 0..(if thorough { 24 } else { 6 }) {
+        vals.push(random_operand(rng, Ty::Felt));
+    }
+    let f = Shape::Int(Ty::Felt);
+    for x in &vals {
+        let a = norm(x);
+        // storage_base_address_from_felt252: x mod ADDR_BOUND (P < 2 * ADDR_BOUND)
+        let base = if a >= addr_bound { &a - &addr_bound } else { a.clone() };
+        out.push(lfn_case("sbase", "felt252", f.clone(), Ty::Felt,
+            &|v| format!("{{ let r: felt252 = starknet::storage_access::storage_base_address_from_felt252({v}).into(); r }}"),
+            x, false, Some(Some(vec![base.clone()]))));
+        out.push(lfn_case("sbaseoff", "felt252", f.clone(), Ty::Felt,
+            &|v| format!("{{ let r: felt252 = starknet::storage_access::storage_address_from_base_and_offset(starknet::storage_access::storage_base_address_from_felt252({v}), 255_u8).into(); r }}"),
+            x, false, Some(Some(vec![norm(&(&base + 255))]))));
+        // contract address / class hash: [0, 2^251 - 1]
+        for (nm, ty) in [("caddr", "starknet::ContractAddress"), ("chash", "starknet::ClassHash")] {
+            let exp = if a < two251 { vec![BigInt::zero(), a.clone()] } else { vec![BigInt::one()] };
+            out.push(lfn_case(nm, "Option<felt252>", Shape::Opt(Ty::Felt), Ty::Felt,
+                &|v| format!("{{ let o: Option<{ty}> = {v}.try_into(); match o {{ Option::Some(a) => {{ let r: felt252 = a.into(); Option::Some(r) }}, Option::None => Option::None }} }}"),
+                x, true, Some(Some(exp))));
+        }
+        // panic_with_felt252 of a constant
+        out.push(lfn_case("panicfelt", "felt252", f.clone(), Ty::Felt, &|v| format!("core::panic_with_felt252({v})"), x, false, None));
+        // into_box / unbox of a constant
+        out.push(lfn_case("boxfelt", "felt252", f.clone(), Ty::Felt, &|v| format!("core::box::BoxTrait::new({v}).unbox()"), x, false, Some(Some(vec![a.clone()]))));
+    }
+    // arrays with known contents: index against the known length
+    let elems: Vec<BigInt> = (0..3).map(|_| random_operand(rng, Ty::U64)).collect();
+    let lits: Vec<String> = elems.iter().map(|e| Ty::U64.lit(e)).collect();
+    let arr = format!("array![{}]", lits.join(", "));
+    let u32max: BigInt = (BigInt::one() << 32u32) - 1;
+    for i in [BigInt::zero(), BigInt::one(), BigInt::from(2), BigInt::from(3), BigInt::from(4), u32max.clone(), &u32max - 1] {
+        let iu = i.to_string().parse::<usize>().unwrap_or(usize::MAX);
+        let exp = if iu < 3 { Some(vec![elems[iu].clone()]) } else { None };
+        let arr2 = arr.clone();
+        out.push(lfn_case("arrat", "u64", Shape::Int(Ty::U64), Ty::U32, &move |v| format!("{{ let arr = {arr2}; *arr.at({v}) }}"), &i, false, Some(exp.clone())));
+        let arr2 = arr.clone();
+        out.push(lfn_case("spanget", "u64", Shape::Int(Ty::U64), Ty::U32,
+            &move |v| format!("{{ let arr = {arr2}; match arr.span().get({v}) {{ Option::Some(b) => *b.unbox(), Option::None => 77_u64 }} }}"),
+            &i, false, Some(Some(vec![if iu < 3 { elems[iu].clone() } else { BigInt::from(77) }]))));
+        let arr2 = arr.clone();
+        out.push(lfn_case("arrlen", "u32", Shape::Int(Ty::U32), Ty::U32,
+            &move |v| format!("{{ let mut arr = {arr2}; arr.append(1_u64); if {v} < arr.len() {{ arr.len() + {v} % 2 }} else {{ arr.len() }} }}"),
+            &i, false, Some(Some(vec![if iu < 4 { BigInt::from(4 + iu % 2) } else { BigInt::from(4) }]))));
+    }
+    for k in 0..3usize {
+        let arr2 = format!("array![{}]", lits[..k].join(", "));
+        let exp = if k == 0 { BigInt::from(5) } else { elems[0].clone() };
+        out.push(lfn_case(&format!("popfront{k}"), "u64", Shape::Int(Ty::U64), Ty::U64,
+            &move |v| format!("{{ let mut arr: Array<u64> = {arr2}; match arr.pop_front() {{ Option::Some(e) => e, Option::None => {v} }} }}"),
+            &BigInt::from(5), false, Some(Some(vec![exp]))));
+    }
+    // panic with a ByteArray: the folder rewrites the panic data (31-byte word boundary)
+    for len in [0usize, 1, 30, 31, 32, 61, 62, 63] {
+        let text: String = (0..len).map(|i| (b'a' + (i % 26) as u8) as char).collect();
+        out.push(lfn_case(&format!("panicba{len}"), "felt252", f.clone(), Ty::Felt,
+            &move |v| format!("{{ if {v} == 12345 {{ 0 }} else {{ panic!(\"{text}\") }} }}"),
+            &BigInt::from(len), false, Some(None)));
+    }
+}
+
 pub fn generate(rng: &mut Rng, thorough: bool) -> (Vec<Case>, BTreeMap<String, usize>) {
     let mut cases: Vec<Case> = vec![];
     let mut seen: BTreeSet<String> = BTreeSet::new();
@@ -1484,6 +1610,7 @@ pub fn generate(rng: &mut Rng, thorough: bool) -> (Vec<Case>, BTreeMap<String, u
     gen_expr(rng, thorough, &mut extra);
     gen_part(rng, thorough, &mut extra);
     gen_aggr(rng, thorough, &mut extra);
+    gen_lfn(rng, thorough, &mut extra);
     for c in extra {
         push(c, &mut cases);
     }
